@@ -102,16 +102,11 @@ func observeRun(vm *ds.Context, input string, faces []int64, force bool, keepFac
 	return
 }
 
-// canonDetail: a dict with two or more keys prints in map order, which is unspecified; texts that render a dict are
-// compared as multisets of characters
+// canonDetail: blanks and line breaks inside the text are not semantic (a span may or may not include the blank that follows it).
+// (Texts that render a dict used to be reported as "UNORDERED": dicts printed in the iteration order of a Go map.  Since the
+// repair 1151525 they print in key order and are compared like every other text.)
 func canonDetail(s string) string {
-	// blanks and line breaks inside the text are not semantic (a span may or may not include the blank that follows it)
-	s = strings.Join(strings.Fields(s), "")
-	if !strings.Contains(s, "{'") {
-		return s
-	}
-	// even whether the text is elided ("equals the result") depends on two independent map iterations
-	return "UNORDERED"
+	return strings.Join(strings.Fields(s), "")
 }
 
 var c03Breakers = []string{"{'a':1", "{'a':", "{'a'", "g9(1,", "g9(", "[1,2", "[1..", "[", "x[", "x[1:", "`a{", "`a{x", "`a{% if 1 {", "if 1 {", "if 1 { 2 } else {",
